@@ -110,6 +110,8 @@ class Describer:
         m = re.match(r'^(\w+)\((.*)\)$', rhs)
         if m and m.group(1) in ('CheckedAdd', 'CheckedSub', 'CheckedMul', 'Add', 'Sub', 'Mul', 'Div', 'Rem', 'Len', 'Not', 'Lt', 'Le', 'Gt', 'Ge', 'Eq', 'Ne', 'BitAnd', 'BitOr', 'Shl', 'Shr', 'Neg'):
             parts = mir.split_top(m.group(2))
+            if m.group(1) == 'Len':
+                return '%s.len()' % self.operand(parts[0], depth + 1)
             return '%s(%s)' % (m.group(1).replace('Checked', ''), ', '.join(self.operand(p, depth + 1) for p in parts))
         m = re.match(r"^&(?:'\w+ )?(?:mut )?(.*)$", rhs)
         if m:
@@ -284,7 +286,14 @@ def rendered_cmp_guards(ctxlike, body, D):
                 continue
             m = re.match(r'^(Eq|Ne|Lt|Le|Gt|Ge)\((.*), (.*)\)$', s.rhs.strip())
             if m and re.fullmatch(r'_\d+', s.lhs.strip()):
-                out.append((bid, i, m.group(1), D.operand(m.group(2)), D.operand(m.group(3))))
+                names = [mm.group(1) for e in s.extra for mm in [re.search(r'Unevaluated\((\w+)', e)] if mm]
+                ops = []
+                for o in (m.group(2), m.group(3)):
+                    if o.strip() == 'const _' and names:
+                        ops.append(names.pop(0))
+                    else:
+                        ops.append(D.operand(o))
+                out.append((bid, i, m.group(1), ops[0], ops[1]))
     return out
 
 
@@ -298,9 +307,9 @@ def implies_ge(op, a, b, x, y):
     the right side of both (x - K with a test on x against a constant)."""
     res = []
     if (a, b) == (x, y):
-        res += {'Ge': ['true'], 'Gt': ['true'], 'Lt': ['false'], 'Eq': ['true']}.get(op, [])
+        res += {'Ge': ['true'], 'Gt': ['true'], 'Lt': ['false'], 'Le': ['false'], 'Eq': ['true']}.get(op, [])
     if (a, b) == (y, x):
-        res += {'Le': ['true'], 'Lt': ['true'], 'Gt': ['false'], 'Eq': ['true']}.get(op, [])
+        res += {'Le': ['true'], 'Lt': ['true'], 'Gt': ['false'], 'Ge': ['false'], 'Eq': ['true']}.get(op, [])
     ky, kb = _const_int(y), _const_int(b)
     if ky is not None and kb is not None and a == x:
         # x >= ky implied by: x > kb (kb >= ky-1), x >= kb (kb >= ky), !(x < kb) (kb >= ky), !(x <= kb) (kb >= ky-1),
@@ -394,7 +403,11 @@ class Discharger:
                 if kl is not None and ki is not None and ki < kl:
                     return 'constant index %d into fixed-size array of %d' % (ki, kl)
                 g = self.guarded(body, s.bid, lambda op, a, b: implies_lt(op, a, b, idx, ln))
-                return g
+                if g:
+                    return g
+                if ki is not None:
+                    return self._len_at_least(body, s, ln, ki + 1)
+                return None
             if s.sub.startswith('overflow('):
                 opc = s.sub[9]
                 a, b = (D.operand(s.operands[0]), D.operand(s.operands[1])) if len(s.operands) == 2 else ('?', '?')
@@ -408,7 +421,19 @@ class Discharger:
                     if self.taint is not None and not self.taint.wire_origins(body, oa) and not self.taint.wire_origins(body, ob) \
                             and not any(x[0] == 'const' and (_const_int(x[1].replace('const ', '')) or 0) > (1 << 32) for x in oa | ob):
                         return 'no operand derives from peer-supplied data (store counters, check-point arithmetic, lengths)'
-                    return None
+                    return self._eq_local(body, s)
+            return None
+        if s.kind == 'libcall' and s.sub == 'Index' and len(s.operands) == 2:
+            v, idx = D.operand(s.operands[0]), D.operand(s.operands[1])
+            if 'Range' not in (s.term.callee or '') or 'RangeFull' in s.term.callee:
+                if 'RangeFull' in s.term.callee:
+                    return 'full range `[..]` never panics'
+                ki = _const_int(idx)
+                g = self.guarded(body, s.bid, lambda op, a, b: implies_lt(op, a, b, idx, v + '.len()'))
+                if g:
+                    return g
+                if ki is not None:
+                    return self._len_at_least(body, s, v + '.len()', ki + 1)
             return None
         if s.kind == 'unwrap':
             o = du.origins(s.operands[0], stop_at_calls=True) if s.operands else set()
@@ -417,6 +442,46 @@ class Discharger:
                 return 'lock poisoning / local database I/O error (not message-triggered)'
             return None
         return None
+
+    def _len_at_least(self, body, s, len_txt, k):
+        """len_txt (rendered `x.len()`) >= k established by a guarding test"""
+        if not len_txt.endswith('.len()'):
+            return None
+        v = len_txt[:-6]
+        if k == 1:
+            r = self.call_guard(body, s.bid, lambda kk, t, _v=v: kk.endswith('::is_empty') and self.D(body).operand(t.args[0]) == _v, 'false')
+            if r:
+                return r
+        return self.guarded(body, s.bid, lambda op, a, b: implies_ge(op, a, b, len_txt, '%d_usize' % k))
+
+    def _eq_local(self, body, s):
+        """a wire operand of + or * is pinned by an equality test against a value that does not derive from peer data"""
+        if self.taint is None or len(s.operands) != 2:
+            return None
+        D = self.D(body)
+        du = D.du
+        for opnd in s.operands:
+            if not self.taint.wire(body, opnd):
+                continue
+            x = D.operand(opnd)
+            found = None
+            for (bid, i, op, a, b) in self.cmps(body):
+                if op not in ('Eq', 'Ne') or x not in (a, b):
+                    continue
+                st = body.blocks[bid].stmts[i]
+                m = re.match(r'^(Eq|Ne)\((.*), (.*)\)$', st.rhs.strip())
+                other = m.group(3) if a == x else m.group(2)
+                if self.taint.wire(body, other):
+                    continue
+                acc = 'true' if op == 'Eq' else 'false'
+                ok, det = self.gf(body).check_sink((bid, i), acc, s.bid, unconditional=True)
+                if ok:
+                    found = 'peer value %s pinned by %s(%s, %s)=%s to a local value' % (x, op, a, b, acc)
+                    break
+            if not found:
+                return None
+            last = found
+        return locals().get('last')
 
     def _empty_guard(self, body, s, a, b):
         kb = _const_int(b)
